@@ -10,7 +10,9 @@ size and that level's grid size and is the only reader of meta_size, the split p
 placed with the tile size and buffer of the matching axis (C04.c); concurrent creators are
 covered by the shared rules C08.a/b (C04.d).
 Added in round 4: where the buffered meta tile rectangle is cut at the grid border the buffer of
-that edge shrinks by exactly the distance cut off (C04.i)."""
+that edge shrinks by exactly the distance cut off (C04.i).
+Added in round 5: crop offsets are rounded to the nearest pixel (C04.j); the shared request template
+of a client is never written (C04.k)."""
 import ast
 
 from ..engine import rule, run_property
